@@ -44,5 +44,11 @@ BufErrorOnlyWhenStarved == (m.pc = "out" /\ m.lastRet = "BUF_ERROR" /\ m.outSpac
 
 DocumentedCodes == m.lastRet \in {"OK", "STREAM_END", "BUF_ERROR", "MEM_ERROR"}
 QueueBound == Len(c.outq) <= BufsLimit /\ m.bufsInUse = Len(c.outq)
+\* liveness under fairness: a caller that offers all input with LZMA_FINISH and ample output space gets LZMA_STREAM_END
+GoodApp == (\E s \in Spaces : Call("FINISH", Total - m.given, s)) \/ AppEnd
+LiveNext == Main \/ (\E w \in W : Worker(w)) \/ GoodApp \/ (Terminated /\ UNCHANGED vars)
+Fairness == WF_vars(Main) /\ (\A w \in W : WF_vars(Worker(w))) /\ WF_vars(GoodApp)
+FairSpec == Init /\ [][LiveNext]_vars /\ Fairness
+EventuallyDone == <>(m.ended \/ m.pc = "freed")
 EndJoinsAll == m.pc = "freed" => \A w \in W : t[w].pc \in {"none", "exited"}
 =============================================================================
